@@ -159,6 +159,7 @@ class Weaver:
                                      embed=kv['embed'].split(',') if 'embed' in kv else ())
                 out.append('/* generated from record %s */' % toks[1]); out.append(txt)
                 self.meta['structs'].append(dict(record=toks[1], cname=c, notes=info))
+                for l in getattr(p, 'links', []): self.meta.setdefault('links', []).append(dict(l, record=toks[1]))
             elif cmd == 'enum':
                 out.append(self.printer().enum(self.tu.find_enum(toks[1]))); i += 1
             elif cmd == 'global':
